@@ -2,39 +2,55 @@
 (* Implementation-shaped model of the client side of one observation:        *)
 (*   protocol.Request._run   first response, (v1, t1) updated only when a    *)
 (*                           notification is handed over, is_last handling   *)
-(*   ClientObservation       callback / error (once) / cancel                *)
+(*   ClientObservation       callback / error (once) / cancel, _Iterator     *)
+(*                           (latest unfetched item, end raised after it)    *)
 (*   TokenManager            process_response keeps the token while the      *)
-(*                           response carries Observe (`final`), drops it    *)
-(*                           otherwise; dispatch_error                       *)
-(* observed through register_callback / register_errback of a plain Request. *)
+(*                           response carries Observe (`final`), whatever    *)
+(*                           its 2.xx code; drops it otherwise;              *)
+(*                           dispatch_error                                  *)
+(*   BlockwiseRequest        (Iface = "bwcb") _run_observation: takes items  *)
+(*                           from the lower observation's iterator one at a  *)
+(*                           time, completes a block-wise body by requesting *)
+(*                           the next block (fetch in progress: later items  *)
+(*                           wait in the iterator, the newest replacing the  *)
+(*                           older) and only then hands it on                *)
+(* observed through register_callback / register_errback of a plain Request  *)
+(* (Iface = "cb") or of a BlockwiseRequest (Iface = "bwcb").                 *)
 (* The peer sends notifications with serial numbers mod 16 embedded          *)
 (* order-preservingly into the 24-bit space (x 2^20: 16 -> 2^24, 8 -> 2^23), *)
-(* CON or NON, Gaps seconds apart, a terminating response (no Observe        *)
-(* option; 2.05 or 4.04) at any position, late notifications after the end,  *)
-(* an ICMP error at any position; an unanswered CON request gives up.        *)
-(* Times are ticks of 2^-10 s.  Where the code signals "not observable" for  *)
-(* a transport failure before the first response the model follows the       *)
-(* property statement (network error); see notes/C07.md.                     *)
+(* CON or NON, any 2.xx code of NCodes, Gaps seconds apart, with or without  *)
+(* further blocks (B2), a terminating response (no Observe option; 2.05 or   *)
+(* 4.04) at any position, late notifications after the end, an ICMP error at *)
+(* any position; an unanswered CON request gives up.  Times are ticks of     *)
+(* 2^-10 s.                                                                  *)
 EXTENDS ObserveClientObs, TLC
 
 CONSTANTS MaxArr,      \* arrivals after the first response
           Gaps,        \* inter-arrival times in seconds
-          Serials      \* serial numbers (before scaling)
+          Serials,     \* serial numbers (before scaling)
+          NCodes,      \* 2.xx codes of responses that carry an Observe option
+          B2,          \* may a notification announce further blocks? ({FALSE} | {FALSE, TRUE})
+          Iface        \* "cb" plain Request | "bwcb" BlockwiseRequest
 
 SCALE == 1048576       \* 2^20
 SEC == 1024
 MID0 == 300
+BW == Iface = "bwcb"
 
 VARIABLES st,          \* "idle" | "wait" | "live" | "over"     Request._run
           tok,         \* token in TokenManager.outgoing_requests
           con,         \* the request went out as CON
           v1, t1,      \* Request._run's variables of the same name
+          slot,        \* BW: the lower observation's iterator: << >> or <<latest unfetched item>>
+          fetch,       \* BW: << >> or <<the item whose next block has been requested>>
+          ended,       \* BW: the application has been told the end
+          nreq,        \* BW: block requests made so far
           now, budget, emit, obs
 
-vars == <<st, tok, con, v1, t1, now, budget, emit, obs>>
+vars == <<st, tok, con, v1, t1, slot, fetch, ended, nreq, now, budget, emit, obs>>
 
 Ev(k, ty, mid, cls, code, q, o, x) ==
-  [k |-> k, t |-> 0, r |-> 1, ty |-> ty, mid |-> mid, cls |-> cls, code |-> code, q |-> q, obs |-> o, x |-> x]
+  [k |-> k, t |-> 0, r |-> 1, ty |-> ty, mid |-> mid, cls |-> cls, code |-> code, q |-> q, obs |-> o, x |-> x, tok |-> ""]
 At(t, es) == [i \in 1..Len(es) |-> [es[i] EXCEPT !.t = t]]
 
 Step(es) == /\ emit' = es /\ obs' = ObsFold(obs, es)
@@ -47,16 +63,44 @@ Notif(o, code) == Ev("notif", "", 0, "", code, 1, o, "")
 ObsEnded(cls, x) == Ev("obsend", "", 0, cls, 0, 1, -1, x)
 Done(cls, code) == Ev("done", "", 0, cls, code, 1, -1, "")
 Mid == 9000 + (MaxArr - budget) + 1
+(* the request for the next block of a notification: a new request with a new token *)
+BlockReq(n) == [Ev("tx", IF con THEN "CON" ELSE "NON", MID0 + n, "req", 1, 0, -1, "b2") EXCEPT !.tok = "t2"]
+
+(* an item of the lower observation: Observe value (-1: the final response), code, more blocks *)
+Item(o, code, more) == [o |-> o, code |-> code, more |-> more]
+
+(* _run_observation with nothing to wait for: works off the iterator.  Returns *)
+(* <<events, fetch', ended', block requests made>>                            *)
+Consume(items) ==
+  IF items = << >> THEN <<<< >>, << >>, FALSE, 0>>
+  ELSE LET it == items[1]
+       IN IF it.o < 0 THEN <<<<Notif(-1, it.code), ObsEnded("lib", "ObservationCancelled")>>, << >>, TRUE, 0>>
+          ELSE IF it.more THEN <<<<BlockReq(nreq + 1)>>, <<it>>, FALSE, 1>>
+          ELSE <<<<Notif(it.o, it.code)>>, << >>, FALSE, 0>>
+
+(* what the arrival of a lower-level item means one layer up.  cb: handed over *)
+(* inside the read callback; BW: after it, by the _run_observation task, or    *)
+(* kept in the iterator while a fetch is in progress                           *)
+Deliver(it, inside, after) ==
+  IF ~BW THEN /\ Step(inside \o At(now', IF it.o < 0 THEN <<Notif(-1, it.code), ObsEnded("lib", "ObservationCancelled")>>
+                                                  ELSE <<Notif(it.o, it.code)>>) \o after)
+              /\ ended' = (ended \/ it.o < 0) /\ UNCHANGED <<slot, fetch, nreq>>
+  ELSE IF fetch # << >>
+    THEN /\ slot' = <<it>> /\ Step(inside \o after) /\ UNCHANGED <<fetch, ended, nreq>>
+    ELSE LET c == Consume(<<it>>)
+         IN /\ Step(inside \o after \o At(now', c[1]))
+            /\ fetch' = c[2] /\ ended' = c[3] /\ nreq' = nreq + c[4] /\ UNCHANGED slot
 
 Init == /\ st = "idle" /\ tok = FALSE /\ con = FALSE /\ v1 = -1 /\ t1 = 0
+        /\ slot = << >> /\ fetch = << >> /\ ended = FALSE /\ nreq = 0
         /\ now = 8 /\ budget = MaxArr /\ emit = << >> /\ obs = ObsInit
 
 Submit(c) ==
   /\ st = "idle"
   /\ st' = "wait" /\ tok' = TRUE /\ con' = c
-  /\ Step(At(now, <<Ev("submit", "", 0, "", 0, 1, -1, ""),
-                    Ev("tx", IF c THEN "CON" ELSE "NON", MID0, "req", 1, 1, 0, "")>>))
-  /\ UNCHANGED <<v1, t1, now, budget>>
+  /\ Step(At(now, <<Ev("submit", "", 0, "", 0, 1, 0, IF BW THEN "bwcb" ELSE ""),
+                    [Ev("tx", IF c THEN "CON" ELSE "NON", MID0, "req", 1, 1, 0, "") EXCEPT !.tok = "t1"]>>))
+  /\ UNCHANGED <<v1, t1, slot, fetch, ended, nreq, now, budget>>
 
 (* The first response is piggy-backed on the ACK of a CON request, or a        *)
 (* separate CON / NON response; a CON request is then acknowledged by an      *)
@@ -66,98 +110,129 @@ FirstTypes == IF con THEN {"ACK", "CON", "NON"} ELSE {"NON", "CON"}
 MidOf(ty) == IF ty = "ACK" THEN MID0 ELSE 9000
 EmptyAck(ty) == IF con /\ ty # "ACK" THEN <<Ev("rx", "ACK", MID0, "empty", 0, 0, -1, ""), RxEnd>> ELSE << >>
 
-(* first response with an Observe option: establishes (v1, t1) *)
-RxFirstObs(v, ty) ==
+(* first response with an Observe option (any success code): establishes (v1, t1) *)
+RxFirstObs(v, ty, code) ==
   /\ st = "wait" /\ ty \in FirstTypes
   /\ now' = now + 8
   /\ st' = "live" /\ v1' = v * SCALE /\ t1' = now'
-  /\ Step(At(now', EmptyAck(ty) \o <<Ev("rx", ty, MidOf(ty), "resp", 69, 1, v * SCALE, "")>> \o Reply(ty, MidOf(ty))
-                   \o <<RxEnd, Done("resp", 69)>>))
-  /\ UNCHANGED <<tok, con, budget>>
+  /\ Step(At(now', EmptyAck(ty) \o <<Ev("rx", ty, MidOf(ty), "resp", code, 1, v * SCALE, "")>> \o Reply(ty, MidOf(ty))
+                   \o <<RxEnd, Done("resp", code)>>))
+  /\ UNCHANGED <<tok, con, slot, fetch, ended, nreq, budget>>
 
 (* first response without Observe option: final at the token layer, "not observable" *)
 RxFirstPlain(code, ty) ==
   /\ st = "wait" /\ ty \in FirstTypes
   /\ now' = now + 8
-  /\ st' = "over" /\ tok' = FALSE
-  /\ Step(At(now', EmptyAck(ty) \o <<Ev("rx", ty, MidOf(ty), "resp", code, 1, -1, ""), ObsEnded("lib", "NotObservable")>>
-                   \o Reply(ty, MidOf(ty)) \o <<RxEnd, Done("resp", code)>>))
-  /\ UNCHANGED <<con, v1, t1, budget>>
+  /\ st' = "over" /\ tok' = FALSE /\ ended' = TRUE
+  /\ LET rx == <<Ev("rx", ty, MidOf(ty), "resp", code, 1, -1, "")>>
+         sig == <<ObsEnded("lib", "NotObservable")>>
+     IN Step(At(now', EmptyAck(ty) \o rx \o (IF BW THEN Reply(ty, MidOf(ty)) \o <<RxEnd>> \o sig
+                                                    ELSE sig \o Reply(ty, MidOf(ty)) \o <<RxEnd>>)
+                      \o <<Done("resp", code)>>))
+  /\ UNCHANGED <<con, v1, t1, slot, fetch, nreq, budget>>
+
+(* while the next block of a notification is outstanding only little time passes *)
+(* (its request would give up after 6 s)                                         *)
+GapsNow == IF fetch # << >> THEN {0, 1} ELSE Gaps
 
 (* a notification on the live observation *)
-RxNotif(v, gap, ty) ==
-  /\ st = "live" /\ budget > 0
+RxNotif(v, gap, ty, code, more) ==
+  /\ st = "live" /\ budget > 0 /\ gap \in GapsNow
   /\ LET t2 == now + gap * SEC
          v2 == v * SCALE
          is_recent == \/ (v1 < v2 /\ v2 - v1 < 8388608)
                       \/ (v1 > v2 /\ v1 - v2 > 8388608)
                       \/ t2 > t1 + 128 * SEC
+         rx == [Ev("rx", ty, Mid, "resp", code, 1, v2, "") EXCEPT !.x = IF more THEN "b2" ELSE ""]
      IN /\ now' = t2
         /\ v1' = IF is_recent THEN v2 ELSE v1
         /\ t1' = IF is_recent THEN t2 ELSE t1
-        /\ Step(At(t2, <<Ev("rx", ty, Mid, "resp", 69, 1, v2, "")>>
-                       \o (IF is_recent THEN <<Notif(v2, 69)>> ELSE << >>)
-                       \o Reply(ty, Mid) \o <<RxEnd>>))
+        /\ IF is_recent
+             THEN IF BW THEN Deliver(Item(v2, code, more), At(t2, <<rx>> \o Reply(ty, Mid) \o <<RxEnd>>), << >>)
+                        ELSE Deliver(Item(v2, code, more), At(t2, <<rx>>), At(t2, Reply(ty, Mid) \o <<RxEnd>>))
+             ELSE /\ Step(At(t2, <<rx>> \o Reply(ty, Mid) \o <<RxEnd>>))
+                  /\ UNCHANGED <<slot, fetch, ended, nreq>>
   /\ budget' = budget - 1
   /\ UNCHANGED <<st, tok, con>>
 
 (* a response without Observe option on the live observation: handed over, then cancellation *)
 RxFinal(code, gap, ty) ==
-  /\ st = "live" /\ budget > 0
+  /\ st = "live" /\ budget > 0 /\ gap \in GapsNow
   /\ now' = now + gap * SEC
   /\ st' = "over" /\ tok' = FALSE
-  /\ Step(At(now', <<Ev("rx", ty, Mid, "resp", code, 1, -1, ""), Notif(-1, code), ObsEnded("lib", "ObservationCancelled")>>
-                   \o Reply(ty, Mid) \o <<RxEnd>>))
+  /\ LET rx == Ev("rx", ty, Mid, "resp", code, 1, -1, "")
+     IN IF BW THEN Deliver(Item(-1, code, FALSE), At(now', <<rx>> \o Reply(ty, Mid) \o <<RxEnd>>), << >>)
+              ELSE /\ Deliver(Item(-1, code, FALSE), At(now', <<rx>>), At(now', Reply(ty, Mid) \o <<RxEnd>>))
   /\ budget' = budget - 1
   /\ UNCHANGED <<con, v1, t1>>
 
+(* the next block of the notification being completed arrives: the whole body is handed *)
+(* over, then whatever waits in the iterator is taken                                    *)
+FetchDone(ticks, ty) ==
+  /\ fetch # << >>
+  /\ ty \in (IF con THEN {"ACK"} ELSE {"NON", "CON"})
+  /\ now' = now + ticks
+  /\ LET m == IF ty = "ACK" THEN MID0 + nreq ELSE 9100 + nreq
+         c == Consume(slot)
+     IN /\ Step(At(now', <<[Ev("rx", ty, m, "resp", 69, 0, -1, "b2") EXCEPT !.tok = "t2"]>> \o Reply(ty, m) \o <<RxEnd>>
+                          \o <<Notif(fetch[1].o, fetch[1].code)>> \o c[1]))
+        /\ fetch' = c[2] /\ ended' = c[3] /\ nreq' = nreq + c[4] /\ slot' = << >>
+  /\ UNCHANGED <<st, tok, con, v1, t1, budget>>
+
 (* anything on that token after the end: unknown response *)
 RxLate(o, gap, ty) ==
-  /\ st = "over" /\ budget > 0 /\ ~tok
+  /\ st = "over" /\ budget > 0 /\ ~tok /\ gap \in GapsNow
   /\ now' = now + gap * SEC
   /\ Step(At(now', <<Ev("rx", ty, Mid, "resp", IF o < 0 THEN 132 ELSE 69, 1, IF o < 0 THEN -1 ELSE o * SCALE, "")>>
                    \o (IF ty = "CON" THEN <<Rst(Mid)>> ELSE << >>) \o <<RxEnd>>))
   /\ budget' = budget - 1
-  /\ UNCHANGED <<st, tok, con, v1, t1>>
+  /\ UNCHANGED <<st, tok, con, v1, t1, slot, fetch, ended, nreq>>
 
+(* ICMP error: every request to the endpoint fails -- the observation, and the block request *)
+(* of a notification being completed                                                          *)
 IcmpErr(gap) ==
-  /\ st \in {"wait", "live"} /\ budget > 0
+  /\ st \in {"wait", "live"} /\ budget > 0 /\ gap \in GapsNow
   /\ (st = "wait" /\ con) => gap = 0          \* later the request has given up already
   /\ now' = now + gap * SEC
-  /\ st' = "over" /\ tok' = FALSE
-  /\ Step(At(now', <<Ev("err", "", 0, "", 0, 0, -1, ""), ObsEnded("net", "NetworkError"), RxEnd>>
-                   \o (IF st = "wait" THEN <<Done("net", 0)>> ELSE << >>)))
+  /\ st' = "over" /\ tok' = FALSE /\ ended' = TRUE /\ slot' = << >> /\ fetch' = << >>
+  /\ LET e == Ev("err", "", 0, "", 0, 0, -1, "")
+         sig == ObsEnded("net", "NetworkError")
+     IN Step(At(now', (IF BW THEN <<e, RxEnd, sig>> ELSE <<e, sig, RxEnd>>)
+                      \o (IF st = "wait" THEN <<Done("net", 0)>> ELSE << >>)))
   /\ budget' = budget - 1
-  /\ UNCHANGED <<con, v1, t1>>
+  /\ UNCHANGED <<con, v1, t1, nreq>>
 
 (* nobody answers the CON request: ACK_TIMEOUT 2 s, MAX_RETRANSMIT 1 -> 6 s *)
 GiveUp ==
   /\ st = "wait" /\ con
   /\ now' = now + 6 * SEC
-  /\ st' = "over" /\ tok' = FALSE
+  /\ st' = "over" /\ tok' = FALSE /\ ended' = TRUE
   /\ Step(At(now', <<ObsEnded("timeout", "ConRetransmitsExceeded"), Done("timeout", 0)>>))
-  /\ UNCHANGED <<con, v1, t1, budget>>
+  /\ UNCHANGED <<con, v1, t1, slot, fetch, nreq, budget>>
 
 Types == {"CON", "NON"}
 Next == \/ \E c \in BOOLEAN : Submit(c)
-        \/ \E v \in Serials, ty \in {"ACK", "CON", "NON"} : RxFirstObs(v, ty)
+        \/ \E v \in Serials, ty \in {"ACK", "CON", "NON"}, code \in NCodes : RxFirstObs(v, ty, code)
         \/ \E code \in {69, 132}, ty \in {"ACK", "CON", "NON"} : RxFirstPlain(code, ty)
-        \/ \E v \in Serials, g \in Gaps, ty \in Types : RxNotif(v, g, ty)
-        \/ \E code \in {69, 132}, g \in Gaps, ty \in Types : RxFinal(code, g, ty)
+        \/ \E v \in Serials, g \in Gaps \cup {1}, ty \in Types, code \in NCodes, more \in B2 : RxNotif(v, g, ty, code, more)
+        \/ \E code \in {69, 132}, g \in Gaps \cup {1}, ty \in Types : RxFinal(code, g, ty)
         \/ \E o \in {-1, 3, 11}, g \in {0, 129}, ty \in Types : RxLate(o, g, ty)
         \/ \E g \in {0, 129} : IcmpErr(g)
+        \/ \E d \in {1, 1024}, ty \in {"ACK", "CON", "NON"} : FetchDone(d, ty)
         \/ GiveUp
 
 Spec == Init /\ [][Next]_vars
 
 (* quiescence: what the monitor demands at the end of a recorded execution   *)
-(* holds in every reachable state of the model                               *)
+(* holds in every reachable state of the model in which nothing is under way *)
 AtEnd == ObsEvent(obs, [k |-> "end"])
 
 NoBad == obs.bad = {}
-QuiescentOk == AtEnd.bad = {}
+QuiescentOk == fetch = << >> => AtEnd.bad = {}
 (* the token is retained exactly as long as the monitor regards the observation as running *)
 TokenAgrees == st # "idle" => (tok <=> obs.rq[1].st \in {"wait", "live"})
 LastAgrees == st = "live" => (obs.rq[1].v1 = v1 /\ obs.rq[1].t1 = t1)
-View == <<st, tok, con, v1, t1, now, budget, obs>>
+(* the application is told the end exactly when the monitor has counted one *)
+EndAgrees == st # "idle" => (ended <=> obs.rq[1].ends = 1)
+View == <<st, tok, con, v1, t1, slot, fetch, ended, nreq, now, budget, obs>>
 =============================================================================
